@@ -536,6 +536,27 @@ theorem gen_vector_spline_predict_all_eq_model (pts : List (α × α)) (fe fn f1
   simp only [List.getD_cons_zero, List.getD_cons_succ]
   exact gen_predict_2d_numpy_all_eq_model pts fe fn f1 f2 mindist poisson h1 h2 h3
 
+/-- **Point by point (about the regenerated source, no hypotheses).**  `predict_numpy` at a list of query points is the list of its values at each
+    point taken alone — whatever the forces, their number, or the length of the query.  Every statement proved at one location (linearity in the
+    data, exactness at a datum) therefore holds at each entry of a query array of any size. -/
+theorem src_predict_numpy_pointwise (pts : List (α × α)) (fe fn : List α) (mindist : α) (forces : List α) :
+    Gen.predictNumpy (pts.map (·.1)) (pts.map (·.2)) fe fn mindist forces
+      = pts.flatMap (fun p => Gen.predictNumpy [p.1] [p.2] fe fn mindist forces) := by
+  induction pts with
+  | nil => simpa using predict_numpy_nil fe fn mindist forces
+  | cons p ps ih =>
+    have h := src_predict_numpy_append [p.1] (ps.map (·.1)) [p.2] (ps.map (·.2)) fe fn mindist forces rfl
+    simp only [List.map_cons, List.singleton_append, List.flatMap_cons] at h ⊢
+    rw [h, ih]
+
+/-- `Spline.predict` as regenerated from the source, point by point. -/
+theorem src_spline_predict_pointwise (pts : List (α × α)) (fc : List (List α)) (mindist : α) (forces : List α) (crest : List (List α)) :
+    Gen.splinePredict fc mindist forces (pts.map (·.1) :: pts.map (·.2) :: crest)
+      = pts.flatMap (fun p => Gen.splinePredict fc mindist forces ([p.1] :: [p.2] :: crest)) := by
+  unfold Gen.splinePredict
+  simp only [List.getD_cons_zero, List.getD_cons_succ]
+  exact src_predict_numpy_pointwise pts _ _ mindist forces
+
 /-- Every query size is met by the hypotheses (a hundred thousand points, seven forces): premises satisfiable. -/
 example : ((List.replicate 100000 (0 : Nat)).length = (List.replicate 100000 (1 : Nat)).length) := by
   rw [List.length_replicate, List.length_replicate]
